@@ -16,7 +16,7 @@ Model: lean/MaltModel/Rt/Closure.lean; theorems: lean/MaltModel/Props/C09.lean.
         ORIGINAL function only, the outcome, `co_freevars` of factory and result, the cell of every free
         name, defaults, globals, parameters, the class predicates   (c09.transform)
 """
-import ast, builtins, importlib.util, inspect, json, logging, os, shutil, sys, tempfile, textwrap, types
+import ast, builtins, importlib.util, inspect, json, linecache, logging, os, shutil, sys, tempfile, textwrap, types
 import __future__
 import common
 from common import sexp, parse_sexp
@@ -57,6 +57,7 @@ class Scratch:
         mod = importlib.util.module_from_spec(spec)
         sys.modules[name] = mod
         self.mods.append(name)
+        linecache.cache.pop(path, None)        # the same path may have been written before (module edited and run again)
         spec.loader.exec_module(mod)
         return mod
 
@@ -308,8 +309,31 @@ class CaseRunner:
         self.lines.append(line); self.expect.append(exp); self.what.append(w); self.meta.append(meta)
 
     # ---------------------------------------------------------------- generated module cases (oracle + L2)
-    def run_case(self, case, tag):
+    def run_reloaded(self, case, tag):
+        """History: a module-level function is converted; the module FILE is edited (another signature / body for the
+        function at the same line, same name) and executed again; the new function is converted in the same process."""
+        subs = []
+        for k, ps in enumerate((case['params'], case['params2'])):
+            sub = c09_gen.normalise(dict(case, kind='toplevel', params=[dict(p) for p in ps], params2=[], namespaces=1))
+            sub['id'] = case['id']
+            sub['uid'] = 'uid-%s-%d' % (tag, case['id'])
+            subs.append(sub)
+        lines = [[i for i, l in enumerate(c09_gen.render(sb).split('\n')) if l.startswith(('def f(', '@_deco'))][0] for sb in subs]
+        if lines[0] != lines[1]:
+            raise common.InfraError('reloaded case: the two versions do not define f at the same line')
+        self.keep = getattr(self, 'keep', [])
+        self.stat('reloaded_modules')
+        for k, sub in enumerate(subs):
+            self.parent_case = dict(case, version_failing=k)
+            try:
+                self.run_case(sub, tag, count=(k == 0))
+            finally:
+                self.parent_case = None
+
+    def run_case(self, case, tag, count=True):
         malt, api = self.malt, self.api
+        if case['kind'] == 'reloaded':
+            return self.run_reloaded(case, tag)
         case['uid'] = 'uid-%s-%d' % (tag, case['id'])
         text = c09_gen.render(case)
         crec = {'case': case, 'source': text}
@@ -340,7 +364,11 @@ class CaseRunner:
             out = mod.build(convert)
         except Exception as e:
             raise common.InfraError('generated module build() failed: %r\n%s' % (e, text))
-        self.run.case(c09_gen.shape_key(case), c09_gen.nontrivial(case))
+        self.run.case(c09_gen.shape_key(self.parent_case or case) + ((case.get('version_failing'),) if False else ()),
+                      c09_gen.nontrivial(self.parent_case or case))
+        getattr(self, 'keep', []).append(out)       # earlier versions stay alive (a history, not a fresh process)
+        if case['kind'] == 'linelambdas':
+            self.stat('lambdas_on_one_line:%d' % len(out['f']))
         out['tcaller'] = None
         if case['kind'] in ('method', 'classmethod') and case.get('bind') != 'unbound':
             # the method reached from recursively converted code: converted_call(o.m, args, kwargs, fscope)
@@ -397,8 +425,10 @@ class CaseRunner:
                 res.append(type(e).__name__)
         return res
 
+    parent_case = None
+
     def fail(self, what, crec, inst, cls, extra=None):
-        c = {'case': crec['case'], 'instance': inst, 'source': crec['source']}
+        c = {'case': self.parent_case or crec['case'], 'instance': inst, 'source': crec['source']}
         if extra:
             c['detail'] = extra
         self.run.fail(what, c, cls)
@@ -878,6 +908,19 @@ def forced_cases():
                     api='convert', params=[P('q0', 'pos')]))
     out.append(dict(base, kind='method', super='super', cf_write=['x0', 'x1'], decl_global=True))
     out.append(dict(base, kind='factory_loop', ninst=2, cf_write=['x0', 'x1', 'x2'], decl_global=True))
+    # conversion histories that must not leak one function's interface into another's
+    lam_b = [P('vab', 'varpos'), P('k0b', 'kwonly', 'int')]
+    lam_c = [P('q0c', 'pos'), P('q1c', 'pos', 'list'), P('vkc', 'varkw')]
+    out.append(dict(base, kind='linelambdas', params=[P('q0', 'pos'), P('q1', 'pos', 'int')], params_more=[lam_b],
+                    lam_free=[['a0', 'a1'], ['a0', 'a1']]))
+    out.append(dict(base, kind='linelambdas', params=[P('q0', 'pos'), P('q1', 'pos', 'int')], params_more=[lam_b, lam_c],
+                    lam_free=[['a0', 'a1'], ['a0'], []], api='convert'))
+    out.append(dict(base, kind='linelambdas', free=[], params=[P('q0', 'pos')], params_more=[lam_c], lam_free=[[], []]))
+    out.append(dict(base, kind='reloaded', decorated=False, params=[P('q0', 'pos'), P('q1', 'pos', 'int')],
+                    params2=[P('va', 'varpos'), P('k0', 'kwonly', 'list')]))
+    out.append(dict(base, kind='reloaded', decorated=True, api='convert', params=allkinds,
+                    params2=[P('q0', 'pos', 'dict')]))
+    out.append(dict(base, kind='toplevel', namespaces=3, ns_mode='reexec', global_write=True, decorated=True))
     # the converted entity carries __wrapped__: it is the wrapper whose interface / cells / behaviour must be kept
     own = [P('q0', 'pos'), P('q1', 'pos', 'int'), P('va', 'varpos'), P('k0', 'kwonly', 'list'), P('vk', 'varkw')]
     plain = dict(base, sibling_conv=False, decorated=False)
